@@ -19,6 +19,7 @@ class Policy:
     def __init__(self):
         self.requests = []          # (primitive, numel)
         self.served = 0
+        self.bypassed = 0           # requests that named their own torch.Generator: passed through to torch unanswered
 
     def draw(self, law, shape, dtype, device):
         raise NotImplementedError
@@ -141,9 +142,15 @@ class Seam:
         p = self.p
 
         def rand(*a, **k):
+            if k.get("generator") is not None:
+                p.bypassed += 1
+                return _ORIG["rand"](*a, **k)
             return p.draw("uniform", _shape_of(a, k), k.get("dtype") or torch.get_default_dtype(), k.get("device") or "cpu")
 
         def randn(*a, **k):
+            if k.get("generator") is not None:
+                p.bypassed += 1
+                return _ORIG["randn"](*a, **k)
             return p.draw("normal", _shape_of(a, k), k.get("dtype") or torch.get_default_dtype(), k.get("device") or "cpu")
 
         def rand_like(t, **k):
@@ -159,6 +166,9 @@ class Seam:
             return p.draw("normal", t.shape, dt, t.device)
 
         def normal(mean=0.0, std=1.0, size=None, **k):
+            if k.get("generator") is not None:
+                p.bypassed += 1
+                return _ORIG["normal"](mean, std, size, **k) if size is not None else _ORIG["normal"](mean, std, **k)
             if isinstance(mean, torch.Tensor) or isinstance(std, torch.Tensor):
                 ref = mean if isinstance(mean, torch.Tensor) else std
                 shape = torch.broadcast_shapes(mean.shape if isinstance(mean, torch.Tensor) else (), std.shape if isinstance(std, torch.Tensor) else ())
@@ -168,6 +178,9 @@ class Seam:
             return mean + std * z
 
         def bernoulli(t, p_=None, **k):
+            if k.get("generator") is not None:
+                p.bypassed += 1
+                return _ORIG["bernoulli"](t, **k) if p_ is None else _ORIG["bernoulli"](t, p_, **k)
             u = p.draw("uniform", t.shape, t.dtype if t.dtype.is_floating_point else torch.float32, t.device)
             prob = t if p_ is None else p_
             return (u < prob).to(t.dtype)
@@ -189,6 +202,9 @@ class Seam:
             return out.to(rate.dtype)
 
         def randint(*a, **k):
+            if k.get("generator") is not None:
+                p.bypassed += 1
+                return _ORIG["randint"](*a, **k)
             if len(a) >= 3:
                 low, high, size = a[0], a[1], a[2]
             elif len(a) == 2:
@@ -199,10 +215,16 @@ class Seam:
             return (low + torch.floor(u * (high - low))).to(k.get("dtype") or torch.int64)
 
         def uniform_(self_, a=0.0, b=1.0, **k):
+            if k.get("generator") is not None:
+                p.bypassed += 1
+                return _ORIG_M["uniform_"](self_, a, b, **k)
             u = p.draw("uniform", self_.shape, self_.dtype, self_.device)
             return self_.copy_(a + (b - a) * u)
 
         def normal_(self_, mean=0.0, std=1.0, **k):
+            if k.get("generator") is not None:
+                p.bypassed += 1
+                return _ORIG_M["normal_"](self_, mean, std, **k)
             z = p.draw("normal", self_.shape, self_.dtype, self_.device)
             return self_.copy_(mean + std * z)
 
